@@ -80,4 +80,67 @@ theorem permList_perm (σ : Perm (Fin n)) : (permList σ).Perm (List.range n) :=
   simp only [List.map_coe_finRange_eq_range] at this
   exact this
 
+theorem shuffle_cons_zero_succ {α : Type} (a : α) (l : List α) (τ : List Nat) :
+    shuffle (a :: l) (0 :: τ.map (· + 1)) = a :: shuffle l τ := by
+  simp [shuffle, List.filterMap_map]
+
+theorem range_succ_succ (n : Nat) :
+    List.range (n + 2) = 0 :: 1 :: (List.range n).map (· + 2) := by
+  rw [List.range_succ_eq_map, List.range_succ_eq_map]
+  simp [Function.comp_def]
+
+/-- any rearrangement of a list is a `shuffle` of it with a well-formed index list -/
+theorem exists_shuffle_of_perm {α : Type} {l₁ l₂ : List α} (h : l₁.Perm l₂) :
+    ∃ τ, τ.Perm (List.range l₂.length) ∧ l₁ = shuffle l₂ τ := by
+  induction h with
+  | nil => exact ⟨[], by simp, rfl⟩
+  | cons a _ ih =>
+    obtain ⟨τ, hτ, rfl⟩ := ih
+    refine ⟨0 :: τ.map (· + 1), ?_, (shuffle_cons_zero_succ a _ τ).symm⟩
+    rw [List.length_cons, List.range_succ_eq_map]
+    exact (hτ.map _).cons 0
+  | swap a b l =>
+    refine ⟨1 :: 0 :: (List.range l.length).map (· + 2), ?_, ?_⟩
+    · simp only [List.length_cons]
+      rw [range_succ_succ]
+      exact List.Perm.swap _ _ _
+    · simp only [shuffle, List.filterMap_cons, List.filterMap_map, Function.comp_def]
+      simp only [List.getElem?_cons_succ, List.getElem?_cons_zero]
+      rw [filterMap_range_getElem?]
+  | trans h₁ h₂ ih₁ ih₂ =>
+    obtain ⟨τ₁, hτ₁, rfl⟩ := ih₁
+    obtain ⟨τ₂, hτ₂, rfl⟩ := ih₂
+    rename_i l₃
+    have hlt : ∀ t ∈ τ₂, t < l₃.length := fun t ht => List.mem_range.mp (hτ₂.subset ht)
+    refine ⟨τ₁.filterMap (fun i => τ₂[i]?), ?_, shuffle_shuffle l₃ τ₂ τ₁ hlt⟩
+    have hlen : (shuffle l₃ τ₂).length = τ₂.length := by
+      rw [(shuffle_perm l₃ τ₂ hτ₂).length_eq, hτ₂.length_eq, List.length_range]
+    rw [hlen] at hτ₁
+    exact (shuffle_perm τ₂ τ₁ hτ₁).trans hτ₂
+
+/-- composing with a fixed well-formed `τ` is injective on index lists -/
+theorem compose_injective (τ : List Nat) (hnd : τ.Nodup) :
+    ∀ (π π' : List Nat), (∀ i ∈ π, i < τ.length) → (∀ i ∈ π', i < τ.length) →
+      π.filterMap (fun i => τ[i]?) = π'.filterMap (fun i => τ[i]?) → π = π' := by
+  intro π
+  induction π with
+  | nil =>
+    intro π' _ h' h
+    cases π' with
+    | nil => rfl
+    | cons j π'' =>
+      have hj := h' j (by simp)
+      simp [List.getElem?_eq_getElem hj] at h
+  | cons i π ih =>
+    intro π' hπ h' h
+    have hi := hπ i (by simp)
+    cases π' with
+    | nil => simp [List.getElem?_eq_getElem hi] at h
+    | cons j π'' =>
+      have hj := h' j (by simp)
+      simp only [List.filterMap_cons, List.getElem?_eq_getElem hi, List.getElem?_eq_getElem hj,
+        List.cons.injEq] at h
+      have hij : i = j := (List.Nodup.getElem_inj_iff hnd).mp h.1
+      rw [hij, ih π'' (fun k hk => hπ k (by simp [hk])) (fun k hk => h' k (by simp [hk])) h.2]
+
 end PgFdr.C14
